@@ -1,1 +1,119 @@
-def main : IO Unit := pure ()
+import NfcVerif.Model.SapLink
+open NfcVerif NfcVerif.Sap
+
+/-! line protocol: one history per line, operations separated by `;`,
+reply = outcomes separated by `;` (see harness/props/c17.py) -/
+
+def optNat : Option Nat → String
+  | some n => toString n
+  | none => "None"
+
+def showPdu : Pdu → String
+  | .ui d s m => s!"UI.{d}.{s}.{toHex m}"
+  | .conn d s sn => s!"CONNECT.{d}.{s}." ++ (match sn with | some n => toHex n | none => "None")
+  | .cc d s => s!"CC.{d}.{s}"
+  | .dm d s r => s!"DM.{d}.{s}.{r}"
+  | .disc d s => s!"DISC.{d}.{s}"
+  | .frmr d s t => s!"FRMR.{d}.{s}.{t}"
+  | .snl rq rs =>
+    "SNL.[" ++ ",".intercalate (rq.map fun q => s!"{q.1}:{toHex q.2}") ++ "].["
+      ++ ",".intercalate (rs.map fun q => s!"{q.1}:{q.2}") ++ "]"
+
+def showOut : Out → String
+  | .unit => "ok"
+  | .addr a => "ok " ++ optNat a
+  | .sock id a p => s!"ok sock {id} {optNat a} {optNat p}"
+  | .bool b => if b then "ok true" else "ok false"
+  | .data d src => "ok data " ++ (match d with | some m => toHex m | none => "None") ++ " " ++ optNat src
+  | .pdu q => "ok pdu " ++ showPdu q
+  | .num n => s!"ok {n}"
+
+def showWire (w : List (Side × Pdu)) : String :=
+  " ".intercalate (w.reverse.map fun q => (if q.1 then "B>" else "A>") ++ showPdu q.2)
+
+def kindName : Kind → String | .raw => "raw" | .ldl => "ldl" | .dlc => "dlc"
+def stName : St → String
+  | .shutdown => "SHUTDOWN" | .closed => "CLOSED" | .listen => "LISTEN" | .connect => "CONNECT"
+  | .established => "ESTABLISHED" | .disconnect => "DISCONNECT" | .closeWait => "CLOSE_WAIT"
+
+def dumpLlc (c : Llc) : String :=
+  let saps := (List.range 64).filterMap fun a =>
+    (c.sap a).map fun e => s!"{a}:" ++ "/".intercalate (e.socks.map toString) ++ s!":{e.sendl.length}"
+  let names := c.snl.map fun q => s!"{toHex q.1}={q.2}"
+  let socks := (List.range c.n).map fun id =>
+    let s := c.sock id
+    s!"{id}:{kindName s.kind}:{stName s.st}:{optNat s.addr}:{optNat s.peer}:{s.recvq.length}:{s.sendq.length}:{s.recvBuf}"
+  let cache := c.sd.cache.map fun q => s!"{toHex q.1}={q.2}"
+  "saps=" ++ ",".intercalate saps ++ " snl=" ++ ",".intercalate names ++ " socks=" ++ ",".intercalate socks
+    ++ " cache=" ++ ",".intercalate cache
+    ++ s!" sd={c.sd.tids.length}:{c.sd.sent.length}:{c.sd.sdreq.length}:{c.sd.sdres.length}:{c.sd.dmpdu.length}"
+
+def side? : String → Option Side
+  | "A" => some false
+  | "B" => some true
+  | _ => none
+
+def kind? : String → Option Kind
+  | "raw" => some .raw | "ldl" => some .ldl | "dlc" => some .dlc | _ => none
+
+def parseOp (p : Pair) (toks : List String) : Option Op :=
+  let okId (x : Side) (id : Nat) : Bool := id < (p.get x).n
+  match toks with
+  | ["S", x, k] => do let x ← side? x; let k ← kind? k; pure (.socket x k)
+  | ["B", x, id, "-"] => do
+    let x ← side? x; let id ← id.toNat?; if okId x id then pure (.bind x id .none) else none
+  | ["B", x, id, "a", a] => do
+    let x ← side? x; let id ← id.toNat?; let a ← a.toInt?
+    if okId x id then pure (.bind x id (.addr a)) else none
+  | ["B", x, id, "n", h] => do
+    let x ← side? x; let id ← id.toNat?; let nm ← parseHex h
+    if okId x id then pure (.bind x id (.name nm)) else none
+  | ["L", x, id, bl] => do
+    let x ← side? x; let id ← id.toNat?; let bl ← bl.toNat?
+    if okId x id then pure (.listen x id bl) else none
+  | ["C", x, id, "a", a] => do
+    let x ← side? x; let id ← id.toNat?; let a ← a.toNat?
+    if okId x id ∧ a < 64 then pure (.connect x id (.addr a)) else none
+  | ["C", x, id, "n", h] => do
+    let x ← side? x; let id ← id.toNat?; let nm ← parseHex h
+    if okId x id then pure (.connect x id (.name nm)) else none
+  | ["A", x, id] => do
+    let x ← side? x; let id ← id.toNat?; if okId x id then pure (.accept x id) else none
+  | ["T", x, id, h, d] => do
+    let x ← side? x; let id ← id.toNat?; let m ← parseHex h; let d ← d.toNat?
+    if okId x id ∧ d < 64 then pure (.sendto x id m d) else none
+  | ["P", x, id, d, s, h] => do
+    let x ← side? x; let id ← id.toNat?; let d ← d.toNat?; let s ← s.toNat?; let m ← parseHex h
+    if okId x id ∧ d < 64 ∧ s < 64 then pure (.sendpdu x id d s m) else none
+  | ["R", x, id] => do
+    let x ← side? x; let id ← id.toNat?; if okId x id then pure (.recvfrom x id) else none
+  | ["Q", x, h] => do let x ← side? x; let nm ← parseHex h; pure (.resolve x nm)
+  | ["X", x, id] => do
+    let x ← side? x; let id ← id.toNat?; if okId x id then pure (.close x id) else none
+  | ["M", x] => do let x ← side? x; pure (.xfer x)
+  | _ => none
+
+def runOps : Pair → List String → List String → List String
+  | _, [], acc => acc.reverse
+  | p, o :: rest, acc =>
+    if o = "D" then runOps p rest (("A{" ++ dumpLlc p.a ++ "} B{" ++ dumpLlc p.b ++ "}") :: acc) else
+    match parseOp p (o.splitOn " ") with
+    | none => runOps p rest ("bad-op" :: acc)
+    | some op =>
+      match apply { p with wire := [] } op with
+      | .error _ => (("abort" :: acc).reverse) ++ rest.map (fun _ => "skip")
+      | .ok (p1, r) =>
+        let res := match r with
+          | .ok o => showOut o
+          | .error e => "exc " ++ e.name
+        let w := showWire p1.wire
+        runOps p1 rest ((if w = "" then res else res ++ " | " ++ w) :: acc)
+
+def handle (line : String) : String :=
+  match line.splitOn " " with
+  | ["name", h] => (match parseHex h with
+    | some nm => (if validName nm then "ok true" else "ok false") ++ " " ++ optNat (wks nm)
+    | none => "bad-op")
+  | _ => ";".intercalate (runOps Pair.init (line.splitOn ";") [])
+
+def main : IO Unit := runDriver handle
